@@ -242,6 +242,19 @@ def two_rows_indents(ind1: int, ind2: int, it1: bool, adjacent: bool, even: bool
     return _two_rows(r1, 1 if adjacent else 2, ind1, ind2, it1, False, False)
 
 
+def two_rows_tabs(k1: int, k2: int, to1: int, to2: int, adjacent: bool, dbl: bool) -> str:
+    """
+    pre: 0 <= k1 <= 3 and 0 <= k2 <= 3 and 0 <= to1 <= 2 and 0 <= to2 <= 2
+    post: _ == ""
+    """
+    # k = 3: italic preamble (column 0), else indent 4*k; each row's preamble optionally followed by a tab offset
+    def row(r, k, to):
+        it = k == 3
+        return [R.pac(r, indent=0 if it else 4 * k, italics=it)] + ([] if to == 0 else [R.word(0x17, 0x20 + to)])
+    words = [R.RCL] + row(7, k1, to1) + R.chars("first") + row(8 if adjacent else 10, k2, to2) + R.chars("second") + [R.EOC]
+    return _compare(words, dbl)
+
+
 def two_rows(r1: int, gap: int, ind1: int, ind2: int, it1: bool, it2: bool, dbl: bool) -> str:
     """
     pre: 1 <= r1 <= 12 and 1 <= gap <= 3 and 0 <= ind1 <= 6 and 0 <= ind2 <= 6
